@@ -145,6 +145,29 @@ def state_lookups_ground(rep: Report, rule: str, funcs: List[FuncInfo]) -> int:
     return n
 
 
+def produced_then_consumed(rep: Report, rule: str, f: FuncInfo, producer: str, consumers, what: str, detail: str) -> int:
+    """`x = producer(…)` followed by `consumer(… x …)`: the consumer call is conditioned on nothing but x itself
+    (`x is not None`): every extra test between the two that reads anything else lets a produced value be dropped.
+    Returns the number of (producer, consumer) pairs."""
+    cfg = cfg_of(f)
+    n = 0
+    for pn, pc in cfg_nodes_with_call(cfg, producer):
+        if not (isinstance(pn.ast, ast.Assign) and len(pn.ast.targets) == 1):
+            continue
+        results = {x.id for x in ast.walk(pn.ast.targets[0]) if isinstance(x, ast.Name)}
+        base = {id(t) for t, _ in guards_dominating(cfg, pn)}
+        for cname in consumers:
+            for cn, cc in cfg_nodes_with_call(cfg, cname):
+                if not any(isinstance(x, ast.Name) and x.id in results for a in list(cc.args) + [k.value for k in cc.keywords] for x in ast.walk(a)):
+                    continue
+                if cfg.path_avoiding(pn, cn, set()) is None:
+                    continue
+                n += 1
+                extra = [t for t, _ in guards_dominating(cfg, cn) if id(t) not in base and t.kind == "test" and not ({x.id for x in ast.walk(t.ast) if isinstance(x, ast.Name)} <= results)]
+                rep.check(not extra, rule, what, f.loc(cc), construct=f"{norm(pn.ast.targets[0])} = {producer}(…); {cname}(…) " + ("whenever there is a result" if not extra else f"only if also `{norm(extra[0].ast)[:60]}`"), detail="" if not extra else detail, function=f.qualname)
+    return n
+
+
 # ------------------------------------------------------------------------------------ sibling branches / fixpoints
 _TWIN_SWAPS = [("Minus", "Plus"), ("decrease", "increase"), ("Decrease", "Increase"), ("DECREASE", "INCREASE")]
 
@@ -1419,6 +1442,11 @@ def inner_bindings_shadow_outer(idx: Index, rep: Report, rule: str) -> None:
 
 
 def c01(idx: Index, rep: Report, tier: str) -> None:
+    rule_pc = "C01.6 T2 every-grounded-effect-is-added"
+    cas = idx.func("engines.compilers.utils.create_action_with_given_subs")
+    npc = produced_then_consumed(rep, rule_pc, cas, "create_effect_with_given_subs", ("_add_effect_instance",), "every effect of the lifted action that survives the substitution is added to the grounded action", "a grounded effect is skipped for a reason other than being impossible (e.g. because an equal one was already added): increase / decrease effects are not idempotent, so two parameters bound to the same object make the grounded action change the fluent once instead of twice — the simulator's successor and every compiler built on the grounder drift from the lifted semantics")
+    rep.count("grounded_effect_sites", npc)
+    rep.require_min(rule_pc, "grounded_effect_sites", 2)
     from .generic import delegate
 
     if delegate(idx, rep, tier, "C36", ("C36.3", "C36.5", "C36.6"), "the simulator's states are UPState chains") < 3:
@@ -1432,15 +1460,48 @@ def c02(idx: Index, rep: Report, tier: str) -> None:
 
     if delegate(idx, rep, tier, "C14", ("C14.1",), "applicability is evaluated by a DagWalker; its answers must not depend on earlier failed walks") < 1:
         raise AnalysisError("C02: the delegated walker clauses vanished")
+    if delegate(idx, rep, tier, "C36", ("C36.1", "C36.3", "C36.5", "C36.6"), "apply and the applicability queries both build the successor with UPState.make_child on the state they are given") < 4:
+        raise AnalysisError("C02: the delegated UPState clauses vanished")
     sim_effects_recorded(idx, rep, "C02.5")
 
 
 def c03(idx: Index, rep: Report, tier: str) -> None:
     from .generic import delegate
 
-    if delegate(idx, rep, tier, "C01", ("C01.1", "C36.3", "C36.5", "C36.6"), "sequential validation replays the plan on the simulator") < 2:
+    if delegate(idx, rep, tier, "C01", ("C01.1", "C36.1", "C36.3", "C36.5", "C36.6"), "sequential validation replays the plan on the simulator") < 2:
         raise AnalysisError("C03: the delegated simulator clauses vanished")
     sim_effects_recorded(idx, rep, "C03.5")
+
+    # validate() never raises for an undefined fluent: every call in _validate that evaluates something in a state
+    # (a simulator method or a function of the simulator module that takes a state) sits inside a try whose handlers
+    # catch UPStateMissingFluentError — the goals *and* the metric of the final state included
+    from ..rules import enclosing_trys, exception_caught_by, handler_type_names
+
+    rule6 = "C03.6 T2 state-reading-calls-are-guarded"
+    val = idx.func("engines.plan_validator.SequentialPlanValidator._validate")
+    simmod = idx.module("engines.sequential_simulator")
+    readers = {}
+    for fname, fi in simmod.functions.items():
+        if any("state" in a.arg for a in fi.node.args.args):
+            readers[fname] = fi
+    for mname, fi in idx.cls(SIM3).methods.items():
+        if any("state" in a.arg for a in fi.node.args.args) and not mname.startswith("__"):
+            readers[mname] = fi
+    n6 = 0
+    for c in walk_no_nested(val.node):
+        if not (isinstance(c, ast.Call) and call_name(c) in readers):
+            continue
+        if not any("state" in norm(a) or "trace" in norm(a) for a in list(c.args) + [k.value for k in c.keywords]):
+            continue
+        n6 += 1
+        names = [n for t in enclosing_trys(val.node, c) for h in t.handlers for n in handler_type_names(h)]
+        # the `else:` / `finally:` part of a try is not protected by its handlers
+        protected = [t for t in enclosing_trys(val.node, c) if any(x is c for st in t.body for x in ast.walk(st))]
+        names = [n for t in protected for h in t.handlers for n in handler_type_names(h)]
+        ok = exception_caught_by(idx, "UPStateMissingFluentError", names)
+        rep.check(ok, rule6, f"_validate: {call_name(c)}(…) evaluates in a state under a handler for UPStateMissingFluentError", val.loc(c), construct=f"{call_name(c)}(…); protecting handlers: {sorted(set(names))}", detail="" if ok else "an expression over a fluent that has no value in that state makes this call raise UPStateMissingFluentError, and nothing around it turns that into an INVALID result: validate() raises instead of deciding", function=val.qualname)
+    rep.count("state_reading_calls", n6)
+    rep.require_min(rule6, "state_reading_calls", 4)
 
 
 # ------------------------------------------------------------------------------------ C04 / C05: interval helper
@@ -1846,12 +1907,50 @@ def c05(idx: Index, rep: Report, tier: str) -> None:
     interval_helper_exhaustive(idx, rep, "C05.7 T15 interval-states-exhaustive")
     same_instant_merge_order_independent(idx, rep, "C05.8 T15 same-instant-merge-order-independent")
 
+    # the instantiated interval of a condition: lower bound from interval.lower, upper bound from interval.upper (both
+    # through _instantiate_timing, i.e. timepoint *and* delay), openness from the interval — on every return
+    rule9 = "C05.9 def-use interval-bounds-instantiated-from-their-own-timing"
+    ii = idx.func("engines.plan_validator.TimeTriggeredPlanValidator._instantiate_interval")
+    ip = ii.params()
+    ivar = next((p_ for p_ in ip if p_ != "self"), None)
+    icfg = cfg_of(ii)
+    idu = DefUse(icfg)
+    n9 = 0
+    for nd in icfg.nodes:
+        if nd.kind != "return" or not isinstance(nd.ast.value, ast.Tuple) or len(nd.ast.value.elts) < 3:
+            if nd.kind == "return":
+                n9 += 1
+                rep.bad(rule9, "_instantiate_interval returns (start, end, left-open)", ii.loc(nd.ast), construct=norm(nd.ast)[:80], detail="the result is not the triple the callers unpack", function=ii.qualname)
+            continue
+        n9 += 1
+        e0, e1, e2 = nd.ast.value.elts[:3]
+        def from_(e, attr):
+            src = idu.sources(e, nd)
+            return any(len(c) >= 2 and c[0] == ivar and c[1].rstrip("()") == attr for c in src)
+        def through_timing(e):
+            return any(c and c[-1].rstrip("()") == "_instantiate_timing" or (len(c) >= 2 and c[1].rstrip("()") == "_instantiate_timing") for c in idu.sources(e, nd))
+        problems = []
+        if not (from_(e0, "lower") and through_timing(e0)):
+            problems.append("the start is not _instantiate_timing(interval.lower, …)")
+        if not (from_(e1, "upper") and through_timing(e1)):
+            problems.append("the end is not _instantiate_timing(interval.upper, …)")
+        if not from_(e2, "is_left_open"):
+            problems.append("the openness is not interval.is_left_open()")
+        rep.check(not problems, rule9, "each bound of the instantiated interval comes from its own timing (timepoint and delay)", ii.loc(nd.ast), construct=norm(nd.ast)[:90] + ("" if not problems else " — " + "; ".join(problems)), detail="" if not problems else "a bound is taken from somewhere else than its own timing: two bounds relative to the same timepoint with different delays ([start+1, start+3]) collapse, the condition is checked at one instant (or in no state) and a plan violating it inside the window is accepted", function=ii.qualname)
+    rep.count("interval_returns", n9)
+    rep.require_min(rule9, "interval_returns", 1)
+
 
 # ------------------------------------------------------------------------------------ C06
 def c06(idx: Index, rep: Report, tier: str) -> None:
     """NegativeConditionsRemover keeps a fluent `not_f` opposite to `f`: every effect `f := v` is mirrored by
     `not_f := Not(v)` (simplified). The mirrored value has to be the negation of the *expression* v — choosing a
     constant from `v.is_true()` is right for constant values only (`f := g` would set not_f := true whatever g is)."""
+    rule_pc = "C06.vii T2 every-grounded-effect-is-added"
+    cas = idx.func("engines.compilers.utils.create_action_with_given_subs")
+    npc = produced_then_consumed(rep, rule_pc, cas, "create_effect_with_given_subs", ("_add_effect_instance",), "every effect of the lifted action that survives the substitution is added to the grounded action", "a grounded effect is skipped for a reason other than being impossible (e.g. because an equal one was already added): increase / decrease effects are not idempotent, so two parameters bound to the same object make the grounded action change the fluent once instead of twice — the simulator's successor and every compiler built on the grounder drift from the lifted semantics")
+    rep.count("grounded_effect_sites", npc)
+    rep.require_min(rule_pc, "grounded_effect_sites", 2)
     from ..dataflow import reaching_defs, def_value
 
     rule = "C06.vi T1 mirrored-effect-negates-the-value"
@@ -1890,6 +1989,33 @@ def c10(idx: Index, rep: Report, tier: str) -> None:
     n = one_shot_local_consumed_twice(rep, rule, [f for f in idx.all_funcs() if f.module.name in mods])
     rep.count("one_shot_locals", n)
     rep.require_min(rule, "one_shot_locals", 1)
+
+    # independent attributes of one element (an effect can be conditional *and* universally quantified) are examined
+    # independently: no feature is set on a path that needs one such attribute to hold and another one not to hold
+    from ..rules2 import path_facts
+
+    rule7 = "C10.7 T2 independent-attributes-examined-independently"
+    FLAGS = ("is_conditional()", "is_forall()")
+    n7 = 0
+    for f in [x for x in idx.all_funcs() if x.module.name in mods and "kind" in x.node.name]:
+        sets = [c for c in walk_no_nested(f.node) if isinstance(c, ast.Call) and isinstance(c.func, ast.Attribute) and c.func.attr.startswith(("set_", "unset_")) and c.args and isinstance(c.args[0], ast.Constant) and isinstance(c.args[0].value, str)]
+        if not sets:
+            continue
+        cfg = cfg_of(f)
+        for c in sets:
+            nds = cfg.node_containing(c)
+            if not nds:
+                continue
+            facts = path_facts(cfg, nds[0])
+            pos = {t for t, v in facts if v and t.endswith(FLAGS)}
+            neg = {t for t, v in facts if not v and t.endswith(FLAGS)}
+            if not pos and not neg:
+                continue
+            n7 += 1
+            clash = [(p_, q) for p_ in pos for q in neg if p_.rsplit(".", 1)[0] == q.rsplit(".", 1)[0]]
+            rep.check(not clash, rule7, f"{c.func.attr}({c.args[0].value!r}) does not depend on an unrelated attribute being absent", f.loc(c), construct=f"{c.func.attr}({c.args[0].value!r}) under {sorted(pos)}" + ("" if not clash else f" and not {clash[0][1]}"), detail="" if not clash else f"`{clash[0][1]}` and `{clash[0][0]}` are independent attributes of the same element, but this feature is recorded only when the first is false (an `elif` where an `if` was meant): an element that has both is classified by one of them only and the kind misses the other feature", function=f.qualname)
+    rep.count("flag_guarded_feature_sites", n7)
+    rep.require_min(rule7, "flag_guarded_feature_sites", 3)
     # a visit of the kind computation may be skipped for an element already visited, never for one that merely
     # shares an attribute (its name) with a visited element
     rule2 = "C10.6 T24 visits-not-skipped-by-attribute"
